@@ -16,6 +16,7 @@ import json
 import os
 import random
 import struct
+import time
 
 import vcheck as vc
 
@@ -367,8 +368,12 @@ class Checker:
     def check(self, cases, tag, timeout=600, per_shard_min=12):
         for i, c in enumerate(cases):
             c["id"] = i
+        t0 = time.time()
         recs = run_harness(self.work, self.vh, self.gojq, cases, tag)
+        t1 = time.time()
         verdicts, stats = validate(self.work, recs, tag, timeout, per_shard_min)
+        vc.log("[C12 %s] %d cases: real code %.1fs, TLC validation %.1fs wall (%d JVM runs, %.0fs summed)" % (
+            tag, len(cases), t1 - t0, time.time() - t1, stats["tlc_runs"], stats["tlc_wall"]))
         self.rep.add_tlc(stats)
         pending = []
         for case, rec, v in zip(cases, recs, verdicts):
